@@ -202,6 +202,14 @@ namespace cnl {
         // The input type
         using im = _impl::fp::make_largest_ufraction<out_type>;
 
+        if constexpr (Exponent > 0) {
+            // The integer part of a negative multiple of 2^Exponent need not fit in Rep,
+            // and the result is less than half of the resolution
+            if (x < out_type{}) {
+                return out_type{};
+            }
+        }
+
         // Calculate the final result by shifting the fraction part around.
         // Remember to add the 1 which is left out to get 1 bit more resolution
         return _impl::from_rep<out_type>(_impl::fp::exp2<im>(x, static_cast<Rep>(floor(x))));
